@@ -390,6 +390,12 @@ PROPS['C10']['level_text'] += (' Completeness is a discharged contract on the co
                                'positions strictly increase, SEQUENCE OF members are the elements in wire order, and the value '
                                'is handed out only if its own size/inner-type constraints hold (NamedTypes lookups, '
                                'setComponentByPosition and the recursive decodeFun are assumed models).')
+ITER = [(D, 'ber.decoder::StreamingDecoder.__iter__')]
+for _p in ('C05', 'C07'):
+    PROPS[_p]['contracts'] = PROPS[_p]['contracts'] + ITER
+CHOICE_DEC = [(D, 'ber.decoder::ChoicePayloadDecoder.valueDecoder')]
+for _p in ('C09', 'C10', 'C12'):
+    PROPS[_p]['contracts'] = PROPS[_p]['contracts'] + CHOICE_DEC
 for _p in list(PROPS):
     NOT_CLAIMED.pop(_p, None)
 
